@@ -192,7 +192,21 @@ func (P *Program) verifyFunc(fn *ssa.Function, fc *FuncContract, mode Mode) *Fun
 			ks = append(ks, k)
 		}
 		sort.Strings(ks)
+		noframe := map[string]bool{}
+		for _, tn := range strings.Split(fc.Opts["noframe"], ",") {
+			if tn = strings.TrimSpace(tn); tn != "" {
+				if te, err := parseTypeExpr(tn); err == nil {
+					if t := c.resolveType(te, pkg); t != nil {
+						noframe[c.sortOf(t)] = true
+						c.assumed["frame of sort "+tn+" not claimed for "+res.Func+" (opt noframe)"] = true
+					}
+				}
+			}
+		}
 		for _, k := range ks {
+			if noframe[k] {
+				continue
+			}
 			ft := fr.frameTerm(k, c.heap(r.st, k), c.heap(st0, k), "alloc0")
 			if ft != "true" {
 				mt := "modifies " + fc.ModText
